@@ -105,33 +105,34 @@ Theorem C09_no_wrap_breaks_only_at_newline st (t : text) mw ils mini :
 Proof. exact (no_wrap_only_newline st t mw ils mini). Qed.
 Print Assumptions C09_no_wrap_breaks_only_at_newline.
 
-(* the faithful model REFUTES greedy / opportunity statements in presence of soft hyphens and break-all; each
-   witness is replayed on the implementation by the check (open findings F111-F113) *)
-Theorem C09_greedy_refuted_overflow_runs_to_soft_hyphen :
-  exists st t w, let o := sfl_model st t (Some w) true false in
-    o = Out (tx "aaaaaaaaaa bbb ccc ddd ee-="%string) 27 (Some 27%Z) 260 /\ w < 260 /\
-    sp_end (spec_first_line st t (Some w) true false) = 10%nat /\
-    spec_mask st t (Some w) true false o <> 0%nat.
-Proof. exact greedy_refuted_overflow_runs_to_soft_hyphen. Qed.
-Print Assumptions C09_greedy_refuted_overflow_runs_to_soft_hyphen.
+(* clauses that the faithful model used to REFUTE (findings F110-F115, soft hyphens and word-break: break-all) and
+   that hold again since the repairs in /repo: on each former counter-example the model of the repaired
+   split_first_line returns the greedy line of the specification (greedy_on st t w o: the outcome is o and
+   spec_mask = 0).  These are instances: soft hyphens and breaks inside words stay outside the guard of
+   C09_first_line_is_greedy (they are tied per case by the correspondence stream). *)
+Theorem C09_overflowing_word_stops_before_later_soft_hyphen :
+  greedy_on (st_normal OwNormal false) (tx "aaaaaaaaaa bbb ccc ddd ee-ff gg"%string) 70
+            (Out (tx "aaaaaaaaaa"%string) 10 (Some 11%Z) 100).
+Proof. exact overflowing_word_stops_before_later_soft_hyphen. Qed.
+Print Assumptions C09_overflowing_word_stops_before_later_soft_hyphen.
+Theorem C09_soft_hyphen_break_shows_hyphen :
+  greedy_on (st_normal OwNormal false) (tx "aaaaaa-bb cc"%string) 70 (Out (tx "aaaaaa-="%string) 8 (Some 8%Z) 70).
+Proof. exact soft_hyphen_break_shows_hyphen. Qed.
+Print Assumptions C09_soft_hyphen_break_shows_hyphen.
+Theorem C09_break_all_fills_the_line :
+  greedy_on (st_normal OwNormal true) (tx "aaaaaaa"%string) 30 (Out (tx "aaa"%string) 3 (Some 3%Z) 30).
+Proof. exact break_all_fills_the_line. Qed.
+Print Assumptions C09_break_all_fills_the_line.
+Theorem C09_text_fitting_without_trailing_space_is_not_hyphenated :
+  greedy_on (st_normal OwNormal false) (tx "gb-g "%string) 30 (Out (tx "gb-g "%string) 6 None 40).
+Proof. exact text_fitting_without_trailing_space_is_not_hyphenated. Qed.
+Print Assumptions C09_text_fitting_without_trailing_space_is_not_hyphenated.
+Theorem C09_soft_hyphen_keeps_room_under_overflow_wrap :
+  greedy_on (st_normal OwAnywhere false) (tx "aa aaaa-bbb cc"%string) 70 (Out (tx "aa"%string) 2 (Some 3%Z) 20).
+Proof. exact soft_hyphen_keeps_room_under_overflow_wrap. Qed.
+Print Assumptions C09_soft_hyphen_keeps_room_under_overflow_wrap.
 
-Theorem C09_soft_hyphen_break_without_hyphen_refuted :
-  exists st t w, let o := sfl_model st t (Some w) true false in
-    o = Out (tx "aaaaaa-"%string) 8 (Some 8%Z) 60 /\
-    sp_hyphen (spec_first_line st t (Some w) true false) = true /\
-    spec_mask st t (Some w) true false o <> 0%nat.
-Proof. exact soft_hyphen_break_without_hyphen. Qed.
-Print Assumptions C09_soft_hyphen_break_without_hyphen_refuted.
-
-Theorem C09_break_all_greedy_refuted_hyphen_room :
-  exists st t w, let o := sfl_model st t (Some w) true false in
-    o = Out (tx "aa"%string) 2 (Some 2%Z) 20 /\
-    sp_end (spec_first_line st t (Some w) true false) = 3%nat /\
-    spec_mask st t (Some w) true false o <> 0%nat.
-Proof. exact break_all_reserves_hyphen_room. Qed.
-Print Assumptions C09_break_all_greedy_refuted_hyphen_room.
-
-(* ... and beyond Pango's 2^21 px limit no width is set at all (the guard's width clause) *)
+(* still refuted by the faithful model: beyond Pango's 2^21 px limit no width is set at all (the guard's width clause) *)
 Theorem C09_greedy_refuted_beyond_pango_width_limit :
   exists st t w, let o := sfl_model st t (Some w) true false in
     o = Out (tx "a b"%string) 3 None 6291456 /\ w < 6291456 /\
